@@ -202,7 +202,8 @@ Inductive event :=
 | Tick (d : N)                 (* time passes *)
 | Forged (sid : N)             (* a transport message with the device index of session sid and a fresh counter
                                   that does NOT authenticate (corrupted tag / garbage payload / wrong key) *)
-| Replay (sid : N).            (* the remote party's last message under session sid, sent again unchanged *)
+| Replay (sid : N)             (* the remote party's last message under session sid, sent again unchanged *)
+| Restart.                     (* interface Down then Up: Peer.Stop (ZeroAndFlushAll) then Peer.Start *)
 
 Record out := mkOut {
   o_acc : bool;        (* handshake completed / transport message accepted *)
@@ -280,6 +281,15 @@ Definition do_recv (s : state) (sid : N) : state * out :=
    way nothing happens: no promotion, no TUN write, no timers, nothing sent. *)
 Definition do_unauthentic (s : state) (sid : N) : state * out := (s, out0).
 
+(* device.go Down/Up -> peer.go Stop: ZeroAndFlushAll = DeleteKeypair(previous/current/next), the three
+   slots nil, indexTable.Delete(handshake.localIndex), handshake.Clear(), FlushStagedPackets;
+   Start: lastSentHandshake = now - (RekeyTimeout + 1 s), timersStart (latch cleared).  The remote party
+   keeps its sessions and the initiations it has seen.  Nothing is sent (no persistent keepalive). *)
+Definition do_restart (s : state) : state * out :=
+  let t := delete_opt (hs s) (delete_kp (next s) (delete_kp (cur s) (delete_kp (prev s) (table s)))) in
+  (mkState (now s) None None None t None (Some (now s - (RekeyTimeout + 1000000000))) false 0
+           (nidx s) (inits s) (nsess s) (sessions s), out0).
+
 Definition do_send (s : state) : state * out :=
   let '(s1, sent, i) := send_staged (set_staged s (staged s + 1)) in
   (s1, mkOut false sent i false false).
@@ -295,6 +305,7 @@ Definition step (s : state) (e : event) : state * out :=
   | Tick d => (set_now s (now s + d), out0)
   | Forged sid => do_unauthentic s sid
   | Replay sid => do_unauthentic s sid
+  | Restart => do_restart s
   end.
 
 (* The property's composite event "handshake completed as initiator". *)
